@@ -308,6 +308,197 @@ static void spectrum(const Model& m) {
    for (int i = 0; i < 2; i++) for (int j = 0; j < 2; j++) pd(m.get_USm()(i, j));
 }
 
+struct Guess { double mu, M1, M2, ml2, me2; };
+static const double fac[3] = {0.95, 1.0, 1.05};
+
+static Guess guess_for(const Model& g, int pert) {
+   int dgt[5], q = pert;
+   for (int i = 0; i < 5; i++) { dgt[i] = q % 3; q /= 3; }
+   return {g.get_Mu() * fac[dgt[0]], g.get_MassB() * fac[dgt[1]], g.get_MassWB() * fac[dgt[2]],
+           g.get_ml2(1, 1) * fac[dgt[3]], g.get_me2(1, 1) * fac[dgt[4]]};
+}
+
+struct Handle {                      // C handle with guaranteed free
+   ::MSSMNoFV_onshell* h{nullptr};
+   ~Handle() { if (h) gm2calc_mssmnofv_free(h); }
+};
+
+// what a user of the C++ interface sets before a conversion (examples/example-slha.cpp).
+// pole: bit0 chargino + neutralino pole masses given, bit1 sneutrino + smuon pole masses given (absent = set to 0, the
+// documented "use the tree-level masses" fallback); mixing: 0 pole mixing matrices not supplied (fields not touched),
+// 1 supplied, 2 supplied and the left-like smuon pole mass moved 1% away from the right-like one
+static void cpp_setup(Model& m, const Model& g, const MP& p, const Guess& gs, int pole, int mixing) {
+   sm_inputs(m);
+   // pole masses, as GM2_slha_io::fill_slha() leaves them (Haber-Kane: positive masses)
+   if (pole & 2) {
+      m.get_physical().MSvmL = g.get_MSvmL();
+      m.get_physical().MSm = g.get_MSm();
+   } else {
+      m.get_physical().MSvmL = 0;
+      m.get_physical().MSm.setZero();
+   }
+   if (pole & 1) {
+      m.get_physical().MChi = g.get_MChi();
+      m.get_physical().MCha = g.get_MCha();
+   } else {
+      m.get_physical().MChi.setZero();
+      m.get_physical().MCha.setZero();
+   }
+   m.get_physical().MAh(1) = 1500;
+   if (mixing >= 1) {
+      m.get_physical().ZN = g.get_ZN();
+      m.get_physical().ZM = g.get_USm();
+   }
+   if (mixing == 2) {
+      // a spectrum that is not a tree-level one: move the mostly left-handed smuon pole mass 1% away
+      // from the right-handed one (the scheme does not use it; the mass ordering is preserved)
+      const int l = std::abs(g.get_USm()(0, 0)) >= std::abs(g.get_USm()(1, 0)) ? 0 : 1;
+      m.get_physical().MSm(l) *= (l == 1 ? 1.01 : 0.99);
+   }
+   // DR-bar parameters / initial guesses
+   other_inputs(m, p);
+   soft_inputs(m, gs.mu, gs.M1, gs.M2, gs.ml2, gs.me2);
+}
+
+// the same through the C interface (no setter for the pole mixing matrices exists)
+static void c_setup(::MSSMNoFV_onshell* h, const Model& g, const MP& p, const Guess& gs, int pole) {
+   const SMIn sm;
+   gm2calc_mssmnofv_set_alpha_MZ(h, sm.v[0]);
+   gm2calc_mssmnofv_set_alpha_thompson(h, sm.v[1]);
+   gm2calc_mssmnofv_set_g3(h, std::sqrt(4 * 3.141592653589793 * 0.1184));
+   gm2calc_mssmnofv_set_MT_pole(h, sm.v[5]);
+   gm2calc_mssmnofv_set_MB_running(h, sm.v[6]);
+   gm2calc_mssmnofv_set_MM_pole(h, sm.v[4]);
+   gm2calc_mssmnofv_set_ML_pole(h, sm.v[7]);
+   gm2calc_mssmnofv_set_MW_pole(h, sm.v[2]);
+   gm2calc_mssmnofv_set_MZ_pole(h, sm.v[3]);
+   gm2calc_mssmnofv_set_MSvmL_pole(h, (pole & 2) ? g.get_MSvmL() : 0.0);
+   for (unsigned i = 0; i < 2; i++) gm2calc_mssmnofv_set_MSm_pole(h, i, (pole & 2) ? g.get_MSm()(i) : 0.0);
+   for (unsigned i = 0; i < 4; i++) gm2calc_mssmnofv_set_MChi_pole(h, i, (pole & 1) ? g.get_MChi()(i) : 0.0);
+   for (unsigned i = 0; i < 2; i++) gm2calc_mssmnofv_set_MCha_pole(h, i, (pole & 1) ? g.get_MCha()(i) : 0.0);
+   gm2calc_mssmnofv_set_MAh_pole(h, 1500);
+   gm2calc_mssmnofv_set_TB(h, p.tb);
+   gm2calc_mssmnofv_set_Ae(h, 1, 1, p.Amu);
+   gm2calc_mssmnofv_set_MassG(h, 1000);
+   for (unsigned i = 0; i < 3; i++) {
+      gm2calc_mssmnofv_set_mq2(h, i, i, 5000. * 5000.);
+      gm2calc_mssmnofv_set_md2(h, i, i, 5000. * 5000.);
+      gm2calc_mssmnofv_set_mu2(h, i, i, 5000. * 5000.);
+      gm2calc_mssmnofv_set_ml2(h, i, i, 3000. * 3000.);
+      gm2calc_mssmnofv_set_me2(h, i, i, 3000. * 3000.);
+   }
+   gm2calc_mssmnofv_set_Au(h, 2, 2, 0);
+   gm2calc_mssmnofv_set_Ad(h, 2, 2, 0);
+   gm2calc_mssmnofv_set_Ae(h, 2, 2, 0);
+   gm2calc_mssmnofv_set_scale(h, 454.7);
+   gm2calc_mssmnofv_set_Mu(h, gs.mu);
+   gm2calc_mssmnofv_set_MassB(h, gs.M1);
+   gm2calc_mssmnofv_set_MassWB(h, gs.M2);
+   gm2calc_mssmnofv_set_ml2(h, 1, 1, gs.ml2);
+   gm2calc_mssmnofv_set_me2(h, 1, 1, gs.me2);
+}
+
+// result columns of a converted model + newline; h != nullptr: everything the oracle decides on comes through the
+// C getters, the C++ view m of the same object only supplies the auxiliary columns
+static void report(Model& m, ::MSSMNoFV_onshell* h, double gme2) {
+   double a, as;
+   amu_total(m, a, as);
+   // muon Yukawa the me2 fit was performed with: resummed from (fitted mu, M1, M2, ml2; me2 = initial guess)
+   double y_prefit = std::numeric_limits<double>::quiet_NaN();
+   try {
+      Model c(m);
+      c.set_me2(1, 1, gme2);
+      c.calculate_masses();
+      y_prefit = c.get_Ye(1, 1);
+   } catch (const std::exception&) {}
+   const auto& pr = m.get_problems();
+   int flags = (pr.no_Mu_MassB_MassWB_convergence() ? 2 : 0) | (pr.no_me2_convergence() ? 4 : 0);
+   if (!h) {
+      flags |= (pr.have_warning() ? 1 : 0) | (pr.have_problem() ? 8 : 0);
+      std::printf(" OK %d", flags);
+      spectrum(m); pd(a); pd(as);
+   } else {
+      flags |= (gm2calc_mssmnofv_have_warning(h) ? 1 : 0) | (gm2calc_mssmnofv_have_problem(h) ? 8 : 0);
+      std::printf(" OK %d", flags);
+      pd(gm2calc_mssmnofv_get_Mu(h)); pd(gm2calc_mssmnofv_get_MassB(h)); pd(gm2calc_mssmnofv_get_MassWB(h));
+      pd(gm2calc_mssmnofv_get_ml2(h, 1, 1)); pd(gm2calc_mssmnofv_get_me2(h, 1, 1));
+      for (unsigned i = 0; i < 2; i++) pd(gm2calc_mssmnofv_get_MCha(h, i));
+      for (unsigned i = 0; i < 4; i++) pd(gm2calc_mssmnofv_get_MChi(h, i));
+      for (unsigned i = 0; i < 4; i++) {
+         double im = 0;
+         const double re = gm2calc_mssmnofv_get_ZN(h, i, 0, &im);
+         pd(std::norm(std::complex<double>(re, im)));
+      }
+      pd(gm2calc_mssmnofv_get_MSvmL(h));
+      for (unsigned i = 0; i < 2; i++) pd(gm2calc_mssmnofv_get_MSm(h, i));
+      for (unsigned i = 0; i < 2; i++) for (unsigned j = 0; j < 2; j++) pd(gm2calc_mssmnofv_get_USm(h, i, j));
+      pd(gm2calc_mssmnofv_calculate_amu_1loop(h) + gm2calc_mssmnofv_calculate_amu_2loop(h));
+      pd(as);
+   }
+   pd(pr.get_Mu_MassB_MassWB_convergence_problem().precision);
+   pd(pr.get_me2_convergence_problem().precision);
+   pd(m.get_g1()); pd(m.get_g2()); pd(m.get_vd()); pd(m.get_vu()); pd(m.get_Ye(1, 1)); pd(m.get_TYe(1, 1));
+   pd(y_prefit);
+   const std::string log = captured.str();
+   std::string path;
+   if (log.find("with root finder") != std::string::npos) path += 'r';
+   if (log.find("No improvement") != std::string::npos) path += 'n';
+   if (log.find("NaN") != std::string::npos) path += 'N';
+   if (log.find("did not converge") != std::string::npos) path += 'd';
+   if (path.empty()) path = "-";
+   std::printf(" %s\n", path.c_str());
+   if (std::getenv("MSSM_REF_SHOWLOG")) {      // debugging aid: the library's verbose log
+      std::istringstream ls(log);
+      std::string l;
+      while (std::getline(ls, l)) std::printf("L %s\n", l.c_str());
+   }
+}
+
+// one conversion through the C++ interface on object m; prints the result columns (or ` EXC ...`) + newline
+static void convert_cpp(Model& m, const Model& g, const MP& p, const Guess& gs, int pole, int mixing, double prec) {
+   captured.str("");
+   try {
+      cpp_setup(m, g, p, gs, pole, mixing);
+      m.set_verbose_output(true);
+      m.convert_to_onshell(prec, 1000);
+      m.set_verbose_output(false);
+      report(m, nullptr, gs.me2);
+   } catch (const std::exception& e) {
+      m.set_verbose_output(false);
+      std::printf(" EXC %s %s\n", errclass(e), oneline(e.what()).c_str());
+   }
+}
+
+// one conversion through the C interface on handle h; entry 0: ..._params(h, prec, 1000), 1: default entry point
+static void convert_c(::MSSMNoFV_onshell* h, const Model& g, const MP& p, const Guess& gs, int pole, double prec, int entry) {
+   captured.str("");
+   try {
+      c_setup(h, g, p, gs, pole);
+      gm2calc_mssmnofv_set_verbose_output(h, 1);
+      const gm2calc_error err = entry == 0 ? gm2calc_mssmnofv_convert_to_onshell_params(h, prec, 1000)
+                                           : gm2calc_mssmnofv_convert_to_onshell(h);
+      gm2calc_mssmnofv_set_verbose_output(h, 0);
+      if (err != gm2calc_NoError) {
+         std::printf(" EXC gm2calc_error %d\n", static_cast<int>(err));
+         return;
+      }
+      report(*reinterpret_cast<Model*>(h), h, gs.me2);
+   } catch (const std::exception& e) {
+      std::printf(" EXC %s %s\n", errclass(e), oneline(e.what()).c_str());
+   }
+}
+
+static bool generating(Model& g, const MP& p, const char* tag) {
+   if (make_onshell(g, p, tag)) return false;
+   double ag, ags;
+   try { amu_total(g, ag, ags); }
+   catch (const std::exception& e) { std::printf("%s EXC %s %s\n", tag, errclass(e), oneline(e.what()).c_str()); return false; }
+   std::printf("%s OK", tag);
+   spectrum(g); pd(ag); pd(ags);
+   std::printf("\n");
+   return true;
+}
+
 static void cmd_C(std::istringstream& in) {
    MP p;
    int modes, nprec, npert;
@@ -323,19 +514,8 @@ static void cmd_C(std::istringstream& in) {
    if (!(in >> cstep >> coff)) { cstep = 0; coff = 0; }
 
    Model g;
-   if (make_onshell(g, p, "G")) return;
-   double ag, ags;
-   try { amu_total(g, ag, ags); }
-   catch (const std::exception& e) { std::printf("G EXC %s %s\n", errclass(e), oneline(e.what()).c_str()); return; }
-   std::printf("G OK");
-   spectrum(g); pd(ag); pd(ags);
-   std::printf("\n");
+   if (!generating(g, p, "G")) return;
 
-   static const double fac[3] = {0.95, 1.0, 1.05};
-   struct Handle {                      // C handle with guaranteed free
-      ::MSSMNoFV_onshell* h{nullptr};
-      ~Handle() { if (h) gm2calc_mssmnofv_free(h); }
-   };
    for (int mode = 0; mode < 5; mode++) {
       if (!(modes >> mode & 1)) continue;
       const bool capi = mode >= 3;
@@ -346,146 +526,66 @@ static void cmd_C(std::istringstream& in) {
             if (ip != 0) continue;
             prec = 1e-8;
          }
-         int dgt[5], q = pert;
-         for (int i = 0; i < 5; i++) { dgt[i] = q % 3; q /= 3; }
-         const double gmu = g.get_Mu() * fac[dgt[0]], gM1 = g.get_MassB() * fac[dgt[1]], gM2 = g.get_MassWB() * fac[dgt[2]],
-                      gml2 = g.get_ml2(1, 1) * fac[dgt[3]], gme2 = g.get_me2(1, 1) * fac[dgt[4]];
-         Model local;
-         Handle H;
-         Model* mp = &local;
+         const Guess gs = guess_for(g, pert);
          std::printf("R %d %a %d", mode, prec, pert);
-         captured.str("");
-         try {
-            if (!capi) {
-               Model& m = local;
-               sm_inputs(m);
-               // pole masses, as GM2_slha_io::fill_slha() leaves them (Haber-Kane: positive masses)
-               m.get_physical().MSvmL = g.get_MSvmL();
-               m.get_physical().MSm = g.get_MSm();
-               m.get_physical().MChi = g.get_MChi();
-               m.get_physical().MCha = g.get_MCha();
-               m.get_physical().MAh(1) = 1500;
-               if (mode >= 1) {
-                  m.get_physical().ZN = g.get_ZN();
-                  m.get_physical().ZM = g.get_USm();
-               }
-               if (mode == 2) {
-                  // a spectrum that is not a tree-level one: move the mostly left-handed smuon pole mass 1% away
-                  // from the right-handed one (the scheme does not use it; the mass ordering is preserved)
-                  const int l = std::abs(g.get_USm()(0, 0)) >= std::abs(g.get_USm()(1, 0)) ? 0 : 1;
-                  m.get_physical().MSm(l) *= (l == 1 ? 1.01 : 0.99);
-               }
-               // DR-bar parameters / initial guesses
-               other_inputs(m, p);
-               soft_inputs(m, gmu, gM1, gM2, gml2, gme2);
-               m.set_verbose_output(true);
-               m.convert_to_onshell(prec, 1000);
-               m.set_verbose_output(false);
-            } else {
-               // the same case as mode 0, built and converted exclusively through the C interface
-               ::MSSMNoFV_onshell* h = H.h = gm2calc_mssmnofv_new();
-               const SMIn sm;
-               gm2calc_mssmnofv_set_alpha_MZ(h, sm.v[0]);
-               gm2calc_mssmnofv_set_alpha_thompson(h, sm.v[1]);
-               gm2calc_mssmnofv_set_g3(h, std::sqrt(4 * 3.141592653589793 * 0.1184));
-               gm2calc_mssmnofv_set_MT_pole(h, sm.v[5]);
-               gm2calc_mssmnofv_set_MB_running(h, sm.v[6]);
-               gm2calc_mssmnofv_set_MM_pole(h, sm.v[4]);
-               gm2calc_mssmnofv_set_ML_pole(h, sm.v[7]);
-               gm2calc_mssmnofv_set_MW_pole(h, sm.v[2]);
-               gm2calc_mssmnofv_set_MZ_pole(h, sm.v[3]);
-               gm2calc_mssmnofv_set_MSvmL_pole(h, g.get_MSvmL());
-               for (unsigned i = 0; i < 2; i++) gm2calc_mssmnofv_set_MSm_pole(h, i, g.get_MSm()(i));
-               for (unsigned i = 0; i < 4; i++) gm2calc_mssmnofv_set_MChi_pole(h, i, g.get_MChi()(i));
-               for (unsigned i = 0; i < 2; i++) gm2calc_mssmnofv_set_MCha_pole(h, i, g.get_MCha()(i));
-               gm2calc_mssmnofv_set_MAh_pole(h, 1500);
-               gm2calc_mssmnofv_set_TB(h, p.tb);
-               gm2calc_mssmnofv_set_Ae(h, 1, 1, p.Amu);
-               gm2calc_mssmnofv_set_MassG(h, 1000);
-               for (unsigned i = 0; i < 3; i++) {
-                  gm2calc_mssmnofv_set_mq2(h, i, i, 5000. * 5000.);
-                  gm2calc_mssmnofv_set_md2(h, i, i, 5000. * 5000.);
-                  gm2calc_mssmnofv_set_mu2(h, i, i, 5000. * 5000.);
-                  gm2calc_mssmnofv_set_ml2(h, i, i, 3000. * 3000.);
-                  gm2calc_mssmnofv_set_me2(h, i, i, 3000. * 3000.);
-               }
-               gm2calc_mssmnofv_set_Au(h, 2, 2, 0);
-               gm2calc_mssmnofv_set_Ad(h, 2, 2, 0);
-               gm2calc_mssmnofv_set_Ae(h, 2, 2, 0);
-               gm2calc_mssmnofv_set_scale(h, 454.7);
-               gm2calc_mssmnofv_set_Mu(h, gmu);
-               gm2calc_mssmnofv_set_MassB(h, gM1);
-               gm2calc_mssmnofv_set_MassWB(h, gM2);
-               gm2calc_mssmnofv_set_ml2(h, 1, 1, gml2);
-               gm2calc_mssmnofv_set_me2(h, 1, 1, gme2);
-               gm2calc_mssmnofv_set_verbose_output(h, 1);
-               const gm2calc_error err = mode == 3 ? gm2calc_mssmnofv_convert_to_onshell_params(h, prec, 1000)
-                                                   : gm2calc_mssmnofv_convert_to_onshell(h);
-               gm2calc_mssmnofv_set_verbose_output(h, 0);
-               if (err != gm2calc_NoError) {
-                  std::printf(" EXC gm2calc_error %d\n", static_cast<int>(err));
-                  continue;
-               }
-               mp = reinterpret_cast<Model*>(h);     // only for the auxiliary columns below
-            }
-            Model& m = *mp;
-            double a, as;
-            amu_total(m, a, as);
-            // muon Yukawa the me2 fit was performed with: resummed from (fitted mu, M1, M2, ml2; me2 = initial guess)
-            double y_prefit = std::numeric_limits<double>::quiet_NaN();
-            try {
-               Model c(m);
-               c.set_me2(1, 1, gme2);
-               c.calculate_masses();
-               y_prefit = c.get_Ye(1, 1);
-            } catch (const std::exception&) {}
-            const auto& pr = m.get_problems();
-            int flags = (pr.no_Mu_MassB_MassWB_convergence() ? 2 : 0) | (pr.no_me2_convergence() ? 4 : 0);
-            if (!capi) {
-               flags |= (pr.have_warning() ? 1 : 0) | (pr.have_problem() ? 8 : 0);
-               std::printf(" OK %d", flags);
-               spectrum(m); pd(a); pd(as);
-            } else {
-               // everything the oracle decides on comes through the C getters
-               ::MSSMNoFV_onshell* h = H.h;
-               flags |= (gm2calc_mssmnofv_have_warning(h) ? 1 : 0) | (gm2calc_mssmnofv_have_problem(h) ? 8 : 0);
-               std::printf(" OK %d", flags);
-               pd(gm2calc_mssmnofv_get_Mu(h)); pd(gm2calc_mssmnofv_get_MassB(h)); pd(gm2calc_mssmnofv_get_MassWB(h));
-               pd(gm2calc_mssmnofv_get_ml2(h, 1, 1)); pd(gm2calc_mssmnofv_get_me2(h, 1, 1));
-               for (unsigned i = 0; i < 2; i++) pd(gm2calc_mssmnofv_get_MCha(h, i));
-               for (unsigned i = 0; i < 4; i++) pd(gm2calc_mssmnofv_get_MChi(h, i));
-               for (unsigned i = 0; i < 4; i++) {
-                  double im = 0;
-                  const double re = gm2calc_mssmnofv_get_ZN(h, i, 0, &im);
-                  pd(std::norm(std::complex<double>(re, im)));
-               }
-               pd(gm2calc_mssmnofv_get_MSvmL(h));
-               for (unsigned i = 0; i < 2; i++) pd(gm2calc_mssmnofv_get_MSm(h, i));
-               for (unsigned i = 0; i < 2; i++) for (unsigned j = 0; j < 2; j++) pd(gm2calc_mssmnofv_get_USm(h, i, j));
-               pd(gm2calc_mssmnofv_calculate_amu_1loop(h) + gm2calc_mssmnofv_calculate_amu_2loop(h));
-               pd(as);
-            }
-            pd(pr.get_Mu_MassB_MassWB_convergence_problem().precision);
-            pd(pr.get_me2_convergence_problem().precision);
-            pd(m.get_g1()); pd(m.get_g2()); pd(m.get_vd()); pd(m.get_vu()); pd(m.get_Ye(1, 1)); pd(m.get_TYe(1, 1));
-            pd(y_prefit);
-            const std::string log = captured.str();
-            std::string path;
-            if (log.find("with root finder") != std::string::npos) path += 'r';
-            if (log.find("No improvement") != std::string::npos) path += 'n';
-            if (log.find("NaN") != std::string::npos) path += 'N';
-            if (log.find("did not converge") != std::string::npos) path += 'd';
-            if (path.empty()) path = "-";
-            std::printf(" %s\n", path.c_str());
-            if (std::getenv("MSSM_REF_SHOWLOG")) {      // debugging aid: the library's verbose log
-               std::istringstream ls(log);
-               std::string l;
-               while (std::getline(ls, l)) std::printf("L %s\n", l.c_str());
-            }
-         } catch (const std::exception& e) {
-            std::printf(" EXC %s %s\n", errclass(e), oneline(e.what()).c_str());
+         if (!capi) {
+            Model m;
+            convert_cpp(m, g, p, gs, 3, mode, prec);
+         } else {
+            // the same case as mode 0, built and converted exclusively through the C interface
+            Handle H;
+            H.h = gm2calc_mssmnofv_new();
+            convert_c(H.h, g, p, gs, 3, prec, mode == 3 ? 0 : 1);
          }
       }
+   }
+}
+
+// Q <api 0=C++|1=C> <prec> <nsteps> { <tb mu M1 M2 mL mR Amu> <pole 0..3> <mixing 0|1> <pert> } x nsteps
+//   object re-use: ONE model object (C++ object resp. C handle) goes through nsteps conversions; before each one every
+//   input a user has a setter for is set again (cpp_setup / c_setup); per step k
+//     QG <k> OK <generating spectrum>      (or EXC/PROB: the step is skipped, the object is not touched)
+//     QR <k> <result columns as in R lines>   conversion on the re-used object
+//     QF <k> <result columns>                 the same inputs on a fresh object
+static void cmd_Q(std::istringstream& in) {
+   int api, n;
+   std::string s;
+   if (!(in >> api >> s >> n) || n < 1 || n > 8) { std::printf("ERR bad Q command\n"); return; }
+   const double prec = std::strtod(s.c_str(), nullptr);
+   struct Step { MP p; int pole, mixing, pert; };
+   std::vector<Step> steps(n);
+   for (auto& st : steps)
+      if (!read_mp(in, st.p) || !(in >> st.pole >> st.mixing >> st.pert) || (api == 1 && st.mixing != 0)) {
+         std::printf("ERR bad Q command\n");
+         return;
+      }
+   Model reused;
+   Handle H;
+   if (api == 1) H.h = gm2calc_mssmnofv_new();
+   bool user_mixing = false;     // the user's own pole mixing matrices are still in the object
+   for (int k = 0; k < n; k++) {
+      const Step& st = steps[k];
+      Model g;
+      char tag[16];
+      std::snprintf(tag, sizeof tag, "QG %d", k);
+      if (!generating(g, st.p, tag)) continue;
+      const Guess gs = guess_for(g, st.pert);
+      if (api == 0) {
+         // a user who supplied NMIX/SMUMIX for an earlier point and has none for this one removes his own matrices;
+         // matrices the library itself stored in the physical struct are not his to reset (no C setter exists at all)
+         if (st.mixing == 0 && user_mixing) {
+            reused.get_physical().ZN.setZero();
+            reused.get_physical().ZM.setZero();
+            user_mixing = false;
+         }
+         if (st.mixing != 0) user_mixing = true;
+      }
+      std::printf("QR %d", k);
+      if (api == 0) convert_cpp(reused, g, st.p, gs, st.pole, st.mixing, prec);
+      else convert_c(H.h, g, st.p, gs, st.pole, prec, 0);
+      std::printf("QF %d", k);
+      if (api == 0) { Model f; convert_cpp(f, g, st.p, gs, st.pole, st.mixing, prec); }
+      else { Handle F; F.h = gm2calc_mssmnofv_new(); convert_c(F.h, g, st.p, gs, st.pole, prec, 0); }
    }
 }
 
@@ -504,6 +604,7 @@ int main() {
       else if (c == "MC") cmd_M(in, 2);
       else if (c == "T") cmd_T(in);
       else if (c == "C") cmd_C(in);
+      else if (c == "Q") cmd_Q(in);
       else std::printf("ERR unknown command %s\n", oneline(c).c_str());
       n++;
    }
